@@ -1,5 +1,6 @@
 import HavocVerif.Model.Payload
 import HavocVerif.Model.Utf16
+import HavocVerif.Model.Builder
 import HavocVerif.Gen.Consts
 import HavocVerif.Gen.DemonHandlers
 /-
@@ -45,6 +46,10 @@ structure Entry where
 
 def i32 (b : Bytes) : Option CVal := (decNat b).map fun n => .int32 (n % 4294967296)
 
+def flag : List Bytes → Option (List CVal)
+  | [p] => some [.int32 (if p == "true".toUTF8.toList then 1 else 0)]
+  | _ => none
+
 def table : List Entry := [
   ⟨"sleep", "CommandSleep", "", fun ps => match ps with | [d, j] => do pure [← i32 d, ← i32 j] | _ => none⟩,
   ⟨"fs.cd", "CommandFS", "DEMON_COMMAND_FS_CD", fun ps => match ps with | [p] => (wstr p).map ([·]) | _ => none⟩,
@@ -77,7 +82,22 @@ def table : List Entry := [
   ⟨"transfer.remove", "CommandTransfer", "DEMON_COMMAND_TRANSFER_REMOVE", fun ps => match ps with | [p] => (hexNat p).map fun n => [.int32 (n % 4294967296)] | _ => none⟩,
   ⟨"exit.thread", "CommandExit", "", fun ps => if ps.isEmpty then some [.int32 1] else none⟩,
   ⟨"exit.process", "CommandExit", "", fun ps => if ps.isEmpty then some [.int32 2] else none⟩,
-  ⟨"proclist", "CommandProcList", "", fun ps => match ps with | [p] => some [.int32 (if p == "true".toUTF8.toList then 1 else 0)] | _ => none⟩
+  ⟨"proclist", "CommandProcList", "", fun ps => match ps with | [p] => some [.int32 (if p == "true".toUTF8.toList then 1 else 0)] | _ => none⟩,
+  -- config: switches are 1 for the text "true" and 0 otherwise; numbers as written; the working hours packed into one
+  -- word as the Demon's InWorkingHours unpacks them (the builder's packing, Model/Builder.lean); kill date 0 = none
+  ⟨"config.verbose", "CommandConfig", "DEMON_CONFIG_IMPLANT_VERBOSE", flag⟩,
+  ⟨"config.coffee.veh", "CommandConfig", "DEMON_CONFIG_IMPLANT_COFFEE_VEH", flag⟩,
+  ⟨"config.coffee.threaded", "CommandConfig", "DEMON_CONFIG_IMPLANT_COFFEE_THREADED", flag⟩,
+  ⟨"config.sleep-technique", "CommandConfig", "DEMON_CONFIG_IMPLANT_SLEEP_TECHNIQUE", fun ps => match ps with | [p] => (i32 p).map ([·]) | _ => none⟩,
+  ⟨"config.memory.alloc", "CommandConfig", "DEMON_CONFIG_MEMORY_ALLOC", fun ps => match ps with | [p] => (i32 p).map ([·]) | _ => none⟩,
+  ⟨"config.memory.execute", "CommandConfig", "DEMON_CONFIG_MEMORY_EXECUTE", fun ps => match ps with | [p] => (i32 p).map ([·]) | _ => none⟩,
+  ⟨"config.inject.technique", "CommandConfig", "DEMON_CONFIG_INJECTION_TECHNIQUE", fun ps => match ps with | [p] => (i32 p).map ([·]) | _ => none⟩,
+  ⟨"config.spawn64", "CommandConfig", "DEMON_CONFIG_INJECTION_SPAWN64", fun ps => match ps with | [p] => (wstr p).map ([·]) | _ => none⟩,
+  ⟨"config.spawn32", "CommandConfig", "DEMON_CONFIG_INJECTION_SPAWN32", fun ps => match ps with | [p] => (wstr p).map ([·]) | _ => none⟩,
+  ⟨"config.killdate", "CommandConfig", "DEMON_CONFIG_KILLDATE", fun ps => match ps with | [p] => if p == [48] then some [.int64 0] else none | _ => none⟩,   -- [48] = the text "0"
+  ⟨"config.workinghours", "CommandConfig", "DEMON_CONFIG_WORKINGHOURS", fun ps => match ps with
+    | [p] => if p == [48] then some [.int32 0] else (hoursWord (p.map (·.toNat))).map fun w => [.int32 w]
+    | _ => none⟩
 ]
 
 def find (name : String) : Option Entry := table.find? (·.name == name)
